@@ -75,6 +75,23 @@ def shapes(names, sigs):
     return type('IfaceOD', (base,), {names[0]: make_method(names[0], '(a, *r, **k)')})
   yield ('derived overrides', override)
 
+  def decorated():
+    # methods produced by a decorator that does not copy the function name: every function object is called 'wrapper'
+    def deco(f):
+      def wrapper(self, *a, **k):
+        return f(self, *a, **k)
+      return wrapper
+    return type('IfaceW', (object,), {n: deco(make_method(n, '(*a, **k)')) for n in names})
+  yield ('decorated methods (function __name__ differs from the method name)', decorated)
+
+  def aliased():
+    # one function object published under several method names
+    f = make_method('impl', '(*a, **k)')
+    d = {n: f for n in names}
+    d['impl'] = f
+    return type('IfaceA', (object,), d)
+  yield ('aliased methods (one function under several names)', aliased)
+
 
 def check_proxies(rep, stats):
   import gevent
